@@ -337,7 +337,7 @@ def cli_family(ctx):
     ctx.extra["scenario_universe"] = total
     ctx.extra["scenarios_run"] = len(scen)
     consts = (CLI_CONSTS % (9, 3, "FALSE")) + "CONSTANT Conj = {%s}\n" % ", ".join('"%s"' % c for c in CLI_CONJ[prop])
-    r = ctx.validate("TraceCli", None, consts=consts, specname="Spec2")
+    r = ctx.validate("TraceCli", None, consts=consts, specname="Spec2", dirs=[d])
     # drift (model prediction vs observation) is reported, never a verdict
     drift = 0
     nontriv = 0
@@ -357,6 +357,21 @@ def cli_family(ctx):
                 drift += 1
     ctx.nontrivial += nontriv
     ctx.extra["model_drift_exit"] = drift
+    if prop == "C16":
+        # differential part: every front-end against the library on real sources and the whole option grid
+        d3 = os.path.join(ctx.work, "rec-fe")
+        t = time.time()
+        C.run([C.VT, "frontends", "--universe", "fix+gap", "--single", "1/400" if q else "1/40", "--max-bytes", "8000",
+               "--take", "400" if q else "6000", "--seed", str(ctx.seed), "--bin", binp, "--outdir", d3, "--shards", "8",
+               "--work", os.path.join(ctx.work, "fe-scratch"), "--verif", C.VERIF,
+               "--fixtures", os.path.join(C.REPO, "tests", "fixtures")], timeout=3000)
+        s3 = json.load(open(os.path.join(d3, "summary.json")))
+        C.log("front-ends vs library: %d sources, %d comparisons in %.1fs" % (s3["elements"], s3["events"], time.time() - t))
+        ctx.recdirs.append(d3)
+        ctx.rec_summaries.append(dict(name="frontends", **{k: s3[k] for k in ("universe", "elements", "events", "format_calls",
+                                                                               "nontrivial_events", "universe_stats")}))
+        ctx.nontrivial += s3["nontrivial_events"]
+        ctx.validate("TraceFmt", ["R16"], dirs=[d3])
     ctx.rule = ("one evaluation = one run of the real binary (a Cli.tla scenario: file tree x command line, run twice) "
                 "validated by TLC against the contract conjuncts; non-trivial = exit status non-zero, a file changed, "
                 "or something was printed")
@@ -531,7 +546,50 @@ def c18(ctx):
                 "pairs of families, all fixtures, several widths); the log is reduced to conversions per node; all non-trivial")
 
 
+# ---------------------------------------------------------------------------------------
+# C02 — compiles to the same result (the real compiler is the logged oracle)
+
+def c02(ctx):
+    q = ctx.quick
+    ctx.level = "exploration"
+    h2 = os.path.join(C.VERIF, "harness-c02")
+    t = time.time()
+    C.run(["cargo", "build", "--release", "--offline", "--quiet"], cwd=h2, timeout=3000, env={"CARGO_NET_OFFLINE": "true"})
+    ctx.build_s += time.time() - t
+    vt2 = os.path.join(h2, "target", "release", "vt2")
+    # U-prog: U-gap elements and fixtures closed into evaluable programs by a fixed prelude
+    d0 = os.path.join(ctx.work, "rec-src")
+    C.record(d0, universe="gap+fix", single="1/200" if q else "1/8", pair="0/1", max_bytes=5000, widths="0", parts="none",
+             passes="false", seed=ctx.seed, shards=1)
+    prelude = open(os.path.join(C.VERIF, "universe", "prelude.typ")).read()
+    inp = os.path.join(ctx.work, "programs.ndjson")
+    n = 0
+    with open(inp, "w") as f:
+        for line in open(os.path.join(d0, "inputs.ndjson")):
+            r = json.loads(line)
+            text = r["text"] if r["id"].startswith("fix:") else prelude + r["text"]
+            f.write(json.dumps({"id": "prog:" + r["id"], "text": text}) + "\n")
+            n += 1
+    d = os.path.join(ctx.work, "rec-obs")
+    t = time.time()
+    C.run([vt2, "--input", inp, "--outdir", d, "--shards", "12", "--widths", "0,40,120" if q else "0,1,10,20,30,40,60,80,120",
+           "--tabs", "2" if q else "2,4"], timeout=3400)
+    s = json.load(open(os.path.join(d, "summary.json")))
+    C.log("compiled %d programs: %d observations (%s) in %.1fs" % (n, s["events"], s["universe_stats"], time.time() - t))
+    ctx.recdirs.append(d)
+    ctx.rec_summaries.append(dict(name="obs", **{k: s[k] for k in ("universe", "elements", "events", "format_calls",
+                                                                     "nontrivial_events", "universe_stats")}))
+    ctx.nontrivial += s["nontrivial_events"]
+    ctx.samples += s["samples"][:4]
+    ctx.validate("TraceFmt", ["R02"], dirs=[d])
+    ctx.rule = ("one evaluation = one (program, distinct formatted output) pair compiled and rendered with the real Typst "
+                "compiler (pages, pixel digest of every page at 2 px/pt, title/author/keywords, or the diagnostics); "
+                "non-trivial = the formatted program differs from the original")
+    ctx.assumptions.append("the Typst compiler, layout engine and rasteriser are deterministic oracles outside the model")
+
+
 TABLE = {
+    "C02": c02,
     "C14": cli_family, "C15": cli_family, "C16": cli_family,
     "C01": c01, "C07": c07, "C19": c19, "C05": c05, "C13": c13, "C17": c17, "C18": c18, "C03": c03, "C04": c04, "C06": c06, "C08": c08, "C09": c09, "C10": c10, "C11": c11, "C12": c12,
 }
